@@ -6,7 +6,7 @@ from vfw.props import fixcase, fixprops
 PROPERTY = "C17"
 LEVEL = "exploration"
 RULE = (
-    "case = (sql, dialect, rule selection) from dialect fixtures <= 4 kB x {all rules, the exact 'sqlfluff format' rule list}, one seeded mutant per fixture, "
+    "case = (sql, dialect, rule selection) from dialect fixtures <= 3 kB under all rules (every 2nd also under the exact 'sqlfluff format' rule list), seeded mutants and comment-injected variants of every 2nd fixture, fix_even_unparsable variants, a quoting sweep and a line-width sweep, "
     "the repo's rule yaml examples (with their own configs) under all rules, and lintable Jinja templates; run through the real Linter.lint_string(fix=True); "
     "oracle: fix(fix(x)) == fix(x) textually with the same config (format rule set, and all rules); distinct = content hash + rule set; non-trivial = the fix actually changed the text"
 )
@@ -17,7 +17,7 @@ REQUIRED_COUNTERS = ["second_passes", "files_changed_by_fix"]
 
 
 def universe():
-    return fixcase.base_universe(fx_bytes=4000, mx=1, rulesets=("all", "format"), rc_rulesets=("all",), jj=240)
+    return fixcase.base_universe(fx_bytes=3000, mx=1, rulesets=("all", "format"), rc_rulesets=("all",), jj=160)
 
 
 def cases(tier, seed):
